@@ -30,7 +30,9 @@ static std::string gen(std::mt19937_64 &rng, int &nprocs) {
     o << ((rng() & 1) ? "FUNC" : "PROC") << " p" << p << "\n";
     int body = rng() % 6; for (int i = 0; i < body; i++) o << "LDAC " << (rng() % 300) << "\n";
     if (rng() % 3 == 0) for (int i = 0; i < (int)(rng() % 20); i++) o << "LDAC 0\n";
-    o << "OPR BRB\n";                       // return: pc = breg
+    // return: pc = breg -- or fall through into the next procedure (its entry is then reached from the instruction
+    // directly before it, the adjacent-procedure case)
+    if (p == nprocs - 1 || rng() % 3 != 0) o << "OPR BRB\n";
   }
   o << "start\n";
   int calls = 1 + rng() % 6;
